@@ -40,6 +40,19 @@ theorem p_prime (d : Nat) (h2 : 2 ≤ d) (hd : d ∣ Spec.Kex.p) : d = Spec.Kex.
         omega
       exact absurd (by rw [hq, Nat.mul_mod_left]) (p_prime_trial q hqs hq2)
 
+/-- (T) `generate_identity_scalar` uses the configured seed whenever one is configured (`has_value()`), so the
+    identity of a seeded node is a function of the seed — including seed 0 -/
+theorem identity_seed_rule : C12.identitySeedUsesHasValue = 1 := by decide
+
+/-- the scalar drawn from any seed lies in the identity range `[2, p − 2]` -/
+theorem scalarOfSeed_range (seed : Nat) : 2 ≤ scalarOfSeed seed ∧ scalarOfSeed seed ≤ Spec.Kex.p - 2 := by
+  unfold scalarOfSeed drawScalar
+  have hp : C12.kPrime = 2147483647 := by decide
+  have hp' : Spec.Kex.p = 2147483647 := rfl
+  rcases lemire_lt (C12.kPrime - 3) Mt32.next mt32_next_lt 64 (Mt32.seed seed) with h | h
+  · rw [hp] at h ⊢; omega
+  · rw [hp] at h; omega
+
 /-! ### modexp -/
 
 /-- `KeyExchange::modexp b e m = b^e mod m` for every base, every `uint32` exponent and every
